@@ -10,6 +10,13 @@ import (
 // kindSig returns the signature of a call-out kind (recorded at its first use, or derived from names in scope).
 func (sc *SpecCtx) kindSig(kind string) *types.Signature {
 	e := sc.st.e
+	// a contracted method of the receiver type of the function under verification, by short name (modular calls
+	// are logged under it); Failover and FailoverOf[V] have methods of the same names
+	if i := strings.Index(e.curFn, ")."); i > 0 && strings.HasPrefix(e.curFn, "(") {
+		if fn := e.P.Funcs[e.curFn[:i+2]+kind]; fn != nil && e.contracts[e.curFn[:i+2]+kind] != nil {
+			return fn.Signature
+		}
+	}
 	if s, ok := e.kindSigs[kind]; ok {
 		return s
 	}
@@ -255,6 +262,16 @@ func (sc *SpecCtx) call(x *SExpr) Val {
 	case "isError": // isError(v): the dynamic type of interface value v implements error (v is non-nil)
 		v := sc.eval(args[0])
 		return mkBool(st.implementsTerm(v.C[0], types.Universe.Lookup("error").Type()))
+	case "paired": // paired(x): a two-leaf value (an interface) as it is stored in an object of a generic type instantiated with its type
+		v := sc.eval(args[0])
+		if len(v.C) != 2 {
+			sc.fail("paired: not a two-leaf value")
+		}
+		return Val{T: tInt, C: []string{fmt.Sprintf("(pair %s %s)", v.C[0], v.C[1])}}
+	case "unpair": // unpair(x, T): the two-leaf value of type T stored as x in an instantiated generic object
+		v := sc.eval(args[0])
+		t := sc.resolveType(sc.typeArg(args[1]))
+		return Val{T: t, C: []string{fmt.Sprintf("(pair_fst %s)", v.C[0]), fmt.Sprintf("(pair_snd %s)", v.C[0])}}
 	case "dyntype": // dyntype(x, T): dynamic type of interface value x is T
 		v := sc.eval(args[0])
 		t := sc.resolveType(sc.typeArg(args[1]))
